@@ -149,6 +149,9 @@ class Inotify:
         inotify_fd = inotify_init()
         if inotify_fd == -1:
             Inotify._raise_error()
+            # _raise_error() tolerates EACCES (meant for unreadable sub-directories), but
+            # without an inotify descriptor there is nothing to go on with.
+            raise OSError(errno.EACCES, os.strerror(errno.EACCES))
         self._inotify_fd = inotify_fd
         self._lock = threading.Lock()
         self._closed = False
